@@ -309,9 +309,15 @@ package hcldec
 // verif:func ChildBlockTypes
 //@ nosafety
 //@ ensures root: in(spec, specDescended)
+// (bodiesWalked: the bodies handed to Variables. Its write frame is assumed: it reads the body and
+// the specification and allocates)
+// verif:ghostvar bodiesWalked ifaceset
 // verif:func Variables
 //@ nosafety
+//@ assumesassigns specVisited, specDescended, varsAsked, bodiesWalked, contentCalls, partialCalls
+//@ ghost bodiesWalked = add(old(bodiesWalked), body)
 //@ ensures root: in(spec, specDescended)
+//@ assumes walked: in(body, bodiesWalked) && (forall m iface :: { in(m, bodiesWalked) } in(m, old(bodiesWalked)) ==> in(m, bodiesWalked))
 // verif:func findLabelSpecs
 //@ nosafety
 //@ ensures root: in(spec, specDescended)
@@ -326,6 +332,34 @@ package hcldec
 // verif:func (*AttrSpec).variablesNeeded
 //@ nosafety
 //@ ensures asked: content != nil && has(content.Attributes, s.Name) ==> in(content.Attributes[s.Name].Expr, varsAsked)
+// Block collection specs: the variables of EVERY block of the spec's type are collected, each block's
+// body against the nested specification - also blocks that decoding will reject as duplicates (their
+// attributes are still evaluated on the way to the error).
+// verif:func (*BlockMapSpec).variablesNeeded
+//@ nosafety
+//@ requires content != nil
+//@ ensures every: forall j int :: { content.Blocks[j] } 0 <= j && j < len(content.Blocks) && content.Blocks[j].Type == s.TypeName ==> in(content.Blocks[j].Body, bodiesWalked)
+//@ loop 1 invariant forall j int :: { content.Blocks[j] } 0 <= j && j <= rangeindex && content.Blocks[j].Type == s.TypeName ==> in(content.Blocks[j].Body, bodiesWalked)
+// verif:func (*BlockObjectSpec).variablesNeeded
+//@ nosafety
+//@ requires content != nil
+//@ ensures every: forall j int :: { content.Blocks[j] } 0 <= j && j < len(content.Blocks) && content.Blocks[j].Type == s.TypeName ==> in(content.Blocks[j].Body, bodiesWalked)
+//@ loop 1 invariant forall j int :: { content.Blocks[j] } 0 <= j && j <= rangeindex && content.Blocks[j].Type == s.TypeName ==> in(content.Blocks[j].Body, bodiesWalked)
+// verif:func (*BlockListSpec).variablesNeeded
+//@ nosafety
+//@ requires content != nil
+//@ ensures every: forall j int :: { content.Blocks[j] } 0 <= j && j < len(content.Blocks) && content.Blocks[j].Type == s.TypeName ==> in(content.Blocks[j].Body, bodiesWalked)
+//@ loop 1 invariant forall j int :: { content.Blocks[j] } 0 <= j && j <= rangeindex && content.Blocks[j].Type == s.TypeName ==> in(content.Blocks[j].Body, bodiesWalked)
+// verif:func (*BlockSetSpec).variablesNeeded
+//@ nosafety
+//@ requires content != nil
+//@ ensures every: forall j int :: { content.Blocks[j] } 0 <= j && j < len(content.Blocks) && content.Blocks[j].Type == s.TypeName ==> in(content.Blocks[j].Body, bodiesWalked)
+//@ loop 1 invariant forall j int :: { content.Blocks[j] } 0 <= j && j <= rangeindex && content.Blocks[j].Type == s.TypeName ==> in(content.Blocks[j].Body, bodiesWalked)
+// verif:func (*BlockTupleSpec).variablesNeeded
+//@ nosafety
+//@ requires content != nil
+//@ ensures every: forall j int :: { content.Blocks[j] } 0 <= j && j < len(content.Blocks) && content.Blocks[j].Type == s.TypeName ==> in(content.Blocks[j].Body, bodiesWalked)
+//@ loop 1 invariant forall j int :: { content.Blocks[j] } 0 <= j && j <= rangeindex && content.Blocks[j].Type == s.TypeName ==> in(content.Blocks[j].Body, bodiesWalked)
 // verif:func (*ExprSpec).variablesNeeded
 //@ nosafety
 //@ ensures asked: in(s.Expr, varsAsked)
